@@ -408,12 +408,6 @@ RULES = {
     'C19': "a history counts when it has at least 8 construction statements",
 }
 
-FAULT_KEYS = ('job_raised', 'job_cancelled', 'timeouts_fired',
-              'nested_timeouts_fired', 'sched_failed:critical',
-              'sched_failed:timeout', 'stalls_injected', 'tie_groups',
-              'stragglers_cancelled', 'crit_with_siblings_active',
-              'forever_cancelled_at_end')
-
 
 def write_evidence(prop, tier, verif_seed, seed0, seed_end, total, n_shapes,
                    n_nt, wall, det_detail, reported, known_hit):
@@ -440,9 +434,10 @@ def write_evidence(prop, tier, verif_seed, seed0, seed_end, total, n_shapes,
         "simulated_seconds": total["vtime"],
         "nontrivial_cases": total["nontrivial"],
         "distinct_histories": n_shapes,
-        "faults_fired": {k: stats.get(k, 0) for k in FAULT_KEYS},
+        "faults_fired": {k[6:]: v for k, v in sorted(stats.items())
+                         if k.startswith('fault:')},
         "probes": {k: v for k, v in sorted(stats.items())
-                   if k not in FAULT_KEYS},
+                   if not k.startswith('fault:')},
         "determinism": det_detail,
         "components": COMPONENTS,
         "violations_reported": reported,
